@@ -196,7 +196,7 @@ theorem Core.modes {s : State} {r : Id} {up : List Id} {ph : Phase} (h : Core s 
     Core { s with mode := m', origMode := om' } r up ph :=
   ⟨⟨h.late.base, h.late.pat, ⟨h.late.st.doc, h.late.st.ctx, h.late.st.oe, h.late.st.tail, h.late.st.head,
       h.late.st.ptt⟩, ⟨hm, ho, h.late.ml.tm⟩⟩,
-    h.stack, h.rdoc, h.nodup, h.tg, h.afn, h.tc, h.tmm, h.form, h.rtu, h.rnd, h.kids, h.elems, h.bh⟩
+    h.stack, h.rdoc, h.nodup, h.tg, h.afn, h.tc, h.tmm, h.form, h.rtu, h.rnd, h.kids, h.elems, h.bh, h.afx⟩
 
 theorem isLate_of_bl {m : Mode} (h : isBL m = true) : isLate m = true := by
   rcases isBL_cases h with rfl | rfl | rfl | rfl | rfl | rfl | rfl | rfl <;> rfl
@@ -235,12 +235,14 @@ instance (tag : Tag) (k : H5V.Model.HtmlTok.RawKind) [hk : PlainStr tag.name] : 
     refine ⟨up1, ph, ⟨hc1.modes rfl (by intro o ho; cases ho; rw [hmode1]; exact isLate_of_bl hbl), ?_⟩, ?_⟩
     · show FitsM _ up1 ph
       unfold FitsM
-      refine ⟨m, up0, el, by rw [hmode1], hup1, ?_, ?_, hfit, ?_⟩
+      refine ⟨m, up0, el, by rw [hmode1], hup1, ?_, ?_, hfit, ?_, ?_⟩
       · rintro rfl; cases hbl
       · rintro rfl; cases hbl
       · show htmlIn (nm s1.dom el) _ = false
         rw [hnm1]
         exact not_in_of_keepName_false hk.h (by decide)
+      · show (nm s1.dom el).ns = nsHtml
+        rw [hnm1]
     · exact fun _ => hfp1⟩
 
 
